@@ -617,7 +617,8 @@ def _create_odesys(
             if isinstance(rxnpar, str):
                 if rxnpar in (parameter_expressions or {}):
                     for pk in parameter_expressions[rxnpar].all_parameter_keys():
-                        keys.append(pk)
+                        if pk not in keys:
+                            keys.append(pk)
                 else:
                     keys.append(rxnpar)
             elif isinstance(rxnpar, Expr):
